@@ -37,6 +37,7 @@ func genF(r *Rng) *big.Int {
 func runFloat(seed uint64, n int, out, stats string, _ []string) {
 	r := NewRng(seed)
 	c := NewCases(out)
+	var mon []MonitorFailure
 	for i := 0; i < n; i++ {
 		kind := 1 + r.Intn(7)
 		a, b := genF(r), genF(r)
@@ -55,6 +56,11 @@ func runFloat(seed uint64, n int, out, stats string, _ []string) {
 		case 2:
 			f := new(big.Float).SetRat(new(big.Rat).SetFrac(a, b))
 			iv, _ := f.Int(nil)
+			// rmi_spec / rdi_spec of C14: floor(a/b) <= Int(SetRat(a/b)) <= floor(a/b)+1
+			fl := new(big.Int).Div(a, b)
+			if iv.Cmp(fl) < 0 || iv.Cmp(new(big.Int).Add(fl, Z(1))) > 0 {
+				mon = append(mon, MonitorFailure{What: fmt.Sprintf("C14 rmi_spec: Float.SetRat(%s/%s).Int() = %s, floor = %s", a, b, iv, fl), Key: "c14-rmi-spec", Replay: fmt.Sprintf("float op2 %s %s", a, b)})
+			}
 			c.Op(L(Z(2), a, b), append(L(iv), canonF(f)...))
 		case 3:
 			f := big.NewFloat(0).Mul(big.NewFloat(0).SetInt(a), big.NewFloat(0).SetInt(b))
@@ -78,5 +84,5 @@ func runFloat(seed uint64, n int, out, stats string, _ []string) {
 	c.Close()
 	writeStats(stats, &Stats{Property: "float", Seed: seed, Cases: c.NCases, Ops: c.NOps, NonTrivial: c.NonTriv,
 		Rule: "big.Float operation on random/near-power-of-two/tie-pattern integers; all non-trivial; distinct = distinct case text",
-		Dist: c.Dist, Samples: c.Samples})
+		Dist: c.Dist, Samples: c.Samples, Monitor: mon})
 }
